@@ -44,3 +44,29 @@ Proof. vm_compute. reflexivity. Qed.
 
 Lemma code_symbols_one_meaning : code_symbols_unambiguous = true.
 Proof. vm_compute. reflexivity. Qed.
+
+(* ---- the two chains nested in parse_units (litre symbol -> space unit cubed; molar symbol -> amount unit per space unit cubed) ---- *)
+(* a row is right when its symbols are of the right kinds, it is the model's own choice of base unit, and - independently of that
+   choice - the unit it builds is the physical one: 10^prefix litres, 10^prefix mol per litre, the litre being (1 dm)^3 *)
+Definition volume_row_ok (e : list N * list N) : bool :=
+  match classify (fst e), classify (snd e) with
+  | Some (KVolume v), Some (KSpace u) =>
+      Qceqb (Qcpowz (si_space u) 3) (p10 (volume_prefix v) * Qcpowz (si_space Dm) 3) && space_eqb u (volume_base v)
+  | _, _ => false
+  end.
+Definition molar_row_ok (e : list N * (list N * list N)) : bool :=
+  match classify (fst e), classify (fst (snd e)), classify (snd (snd e)) with
+  | Some (KMolar m), Some (KAmount a), Some (KSpace u) =>
+      Qceqb (si_amount a / Qcpowz (si_space u) 3) (p10 (molar_prefix m) * si_amount Mol / Qcpowz (si_space Dm) 3)
+      && amount_eqb a (molar_base m) && space_eqb u Dm
+  | _, _, _ => false
+  end.
+Definition code_chains_ok : bool :=
+  forallb volume_row_ok code_volume_chain && forallb molar_row_ok code_molar_chain
+  && forallb (fun l => mem_s l (map fst code_volume_chain)) code_labels_volume
+  && forallb (fun l => mem_s l (map fst code_molar_chain)) code_labels_density
+  && forallb (fun l => mem_s l code_labels_volume) (map fst code_volume_chain)
+  && forallb (fun l => mem_s l code_labels_density) (map fst code_molar_chain).
+
+Lemma code_chains_agree : code_chains_ok = true.
+Proof. vm_compute. reflexivity. Qed.
